@@ -121,6 +121,7 @@ def main(tier, replay, t0):
                                           "not the input", base))
             if len(samples) < 3 and cls & {"dquote", "backslash", "CR"}:
                 samples.append({"classes": sorted(cls), "head": c.wgsl[:200]})
+    n += faulty_formatter_runs(viol, tier)
     inconclusive = []
     need = {"dquote", "backslash", "brace", "CRLF", "control", "NUL", "non-ascii-bmp", "non-bmp"}
     if not need <= classes:
@@ -138,3 +139,41 @@ def main(tier, replay, t0):
     }, assumptions=["NUL and other control characters are generated inside comments (naga "
                     "accepts them there); U+0085 is a line break for naga and is not used"],
         inconclusive=inconclusive)
+
+
+def faulty_formatter_runs(viol, tier):
+    """'formatter on/off' is part of this property's quantifier: with the formatter on, whatever
+    the formatter does (works, fails after partial output, prints garbage), SOURCE in the
+    returned text must still evaluate to the input"""
+    import hashlib  # noqa: F401
+    import os
+    import shutil
+    binp = core.build_drive()
+    real = shutil.which("rustfmt")
+    camp = probes.campaign("const", tier)
+    cases = [c for c in camp.cases.values() if not c.frontend_rejected][:24]
+    n = 0
+    for stub in ("partial_then_kill", "partial_then_exit1", "garbage_exit3", "empty_ok"):
+        jobs = [{"id": c.id, "source": c.wgsl, "opt": {"fmt": True}, "inv": True} for c in cases]
+        p, res = core.run_drive(binp, jobs, "c16/fault-" + stub, timeout=600,
+                                extra_env={"PATH": os.path.join(core.VERIF, "stubs", stub),
+                                           "VERIF_REAL_RUSTFMT": real or ""})
+        by = {r["id"]: r for r in res}
+        for c in cases:
+            r = by.get(c.id)
+            if not r or r.get("result") != "ok":
+                continue  # C19 judges panics / errors under formatter faults
+            n += 1
+            inv = r.get("inv", {})
+            src = [k for k in inv.get("consts", []) if k["name"] == "SOURCE"]
+            want_len = len(c.wgsl.encode("utf-8"))
+            if "parse_error" in inv or not src or src[0].get("str_len") != want_len:
+                viol.append(Violation("source-lost-under-formatter-fault", stub,
+                                      "with the formatter on and the formatter %s, the returned "
+                                      "text has no SOURCE equal to the input (%s)" % (
+                                          stub, "does not parse" if "parse_error" in inv else
+                                          "length %s vs %d" % (src[0].get("str_len") if src
+                                                               else None, want_len)),
+                                      {"case_id": c.id, "wgsl": c.wgsl, "options": {"fmt": True},
+                                       "formatter": stub}))
+    return n
